@@ -361,7 +361,7 @@ func runImm(s ImmScript, v *vt.V) {
 
 func cfg() hist.Config {
 	return hist.Config{MaxOps: 35, ValidRepos: 2, Uploads: true, Mismatch: false, BadManifests: true, Retype: true,
-		Deletes: true, Lists: true, MaxSmall: 20, NoRange: true}
+		Deletes: true, Lists: true, MaxSmall: 20, NoRange: true, DeepChain: true}
 }
 
 var propRO = &vt.Prop[ROScript]{
@@ -378,7 +378,7 @@ var propRO = &vt.Prop[ROScript]{
 var propImm = &vt.Prop[ImmScript]{
 	ID:   "C14",
 	Name: "ImmutableModes",
-	Rule: "generated histories (<= 35 ops: tagged/untagged pushes of equal and different content under few tags, image manifests and nested indexes, deletes aimed at tagged manifests and their references, mounts, chunked uploads) through ocifilter.Immutable(ocimem) and on ocimem{ImmutableTags}; a ledger records (repository, tag) -> (digest, bytes) at the first successful tagged push or tag read; oracle after every step: every ledger entry still resolves to the same digest and reads the same bytes; wrapper: every delete fails and nothing that was ever retrievable disappears; tags mode: every layer, config and (nested) index child of every tagged manifest, interpreted by the media type it is stored with, is retrievable; non-trivial = a tag is in the ledger and a conflicting push or a refused delete occurred; distinct = (mode, op sequence)",
+	Rule: "generated histories (<= 35 ops: tagged/untagged pushes of equal and different content under few tags, image manifests and nested indexes (a quarter of the universes are one chain of indexes seven manifests deep), deletes aimed at tagged manifests and their references, mounts, chunked uploads) through ocifilter.Immutable(ocimem) and on ocimem{ImmutableTags}; a ledger records (repository, tag) -> (digest, bytes) at the first successful tagged push or tag read; oracle after every step: every ledger entry still resolves to the same digest and reads the same bytes; wrapper: every delete fails and nothing that was ever retrievable disappears; tags mode: every layer, config and (nested) index child of every tagged manifest, interpreted by the media type it is stored with, is retrievable; non-trivial = a tag is in the ledger and a conflicting push or a refused delete occurred; distinct = (mode, op sequence)",
 	Gen: func(t *rapid.T) ImmScript {
 		return ImmScript{Mode: rapid.SampledFrom([]string{"wrapper", "tagsmode", "tagsmode"}).Draw(t, "mode"), Hist: hist.Gen(cfg())(t)}
 	},
